@@ -6,6 +6,7 @@ use serde_json::Value;
 pub mod gen;
 pub mod c01;
 pub mod c02;
+pub mod c05;
 pub mod tree;
 
 #[derive(Clone, Copy, Debug, Default)]
@@ -47,6 +48,7 @@ pub fn get(id: &str) -> Option<Box<dyn Check>> {
     match id {
         "C01" => Some(Box::new(c01::C01)),
         "C02" => Some(Box::new(c02::C02)),
+        "C05" => Some(Box::new(c05::C05)),
         _ => None,
     }
 }
